@@ -235,6 +235,7 @@ def int_pairs(rng, rep, n):
             for b in (lim + d - a, a - (lim + d)):
                 if lo <= b <= hi:
                     out.append((a, b))
+    nd = len(out)            # everything so far is directed
     for _ in range(n):
         out.append((rng.randrange(lo, hi + 1), rng.randrange(lo, hi + 1)))
         v = rng.getrandbits(rng.randrange(1, INT_INFO[rep][0]))
@@ -243,7 +244,7 @@ def int_pairs(rng, rep, n):
             v = -v
         if lo <= v <= hi and lo <= w <= hi:
             out.append((v, w))
-    return out
+    return out, nd
 
 
 def float_pairs(rng, rep, n):
@@ -265,6 +266,7 @@ def float_pairs(rng, rep, n):
            (one, norm(False, bias - p, 1)), (norm(False, 0, 0), norm(True, 0, 0)), (norm(True, 0, 0), norm(True, 0, 0)),
            (mx, norm(False, emaxf - 1 - p, 0)), (mx, norm(False, emaxf - 1 - p, 1)), (norm(False, 1, 0), norm(True, 0, fmask)),
            (one, norm(True, bias - 1, fmask)), (inf, one), (one, ninf)]
+    nd = len(out)
     for _ in range(n):
         ea = rng.randrange(0, emaxf)
         eb_ = min(emaxf - 1, max(0, ea + rng.randrange(-p - 3, p + 4)))
@@ -272,7 +274,7 @@ def float_pairs(rng, rep, n):
         a = norm(rng.random() < 0.5, ea, (rng.getrandbits(64) & fmask) >> k1 << k1)
         b = norm(rng.random() < 0.5, eb_, (rng.getrandbits(64) & fmask) >> k2 << k2)
         out.append((a, b))
-    return out
+    return out, nd
 
 
 # ----------------------------------------------------------------------------------------------
@@ -529,7 +531,8 @@ def explore(tier, seed, rng, wd):
     # stride 0 = "light": the directed units only, directed values only, no sanitizer — every other compiler x standard
     # in every quick run (C++20 reversed candidates, g++ vs clang)
     if tier == "quick":
-        configs = [("g++", "c++14", 1, "-O0"), ("exact", std2, 8, "-O0")] + [c + (0, "-O0") for c in others]
+        configs = [("g++", "c++14", 1, "-O0"), ("exact", std2, 8, "-O0")] + [c + (0, "-O0") for c in others] + \
+                  [("exact", s_, 0, "-O0") for s_ in ("c++14", "c++17", "c++20") if s_ != std2]      # UB verdicts under every standard
     else:
         configs = [("g++", "c++14", 1, "-O1"), ("exact", std2, 3, "-O1")] + \
                   [c + (1 if c[0].startswith("clang") and c[1] == "c++17" else 3, "-O1") for c in others]
@@ -552,6 +555,12 @@ def explore(tier, seed, rng, wd):
         return dict({"kind": "value", "unit": u["expr"], "unit_pre": u.get("pre", ""), "unit_kind": u["kind"],
                      "rep": ins["rep"], "config": cfg}, **kw)
 
+    # units of the point grid: the probes' directed list (origins, unitless, equivalent-typed, chrono counterpart)
+    gnames = ["au::Celsius", "au::Fahrenheit", "au::Kelvins", "decltype(au::Celsius{} * au::mag<2>())", "au::UnitProductT<>",
+              "au::Unos", "au::Meters", "decltype(au::Inches{} * au::mag<12>())", "au::Milli<au::Seconds>"]
+    punits = [(i, u) for n in gnames for i, u in enumerate(units) if u["expr"] == n]
+    punits += [(i, u) for i, u in enumerate(units) if u["kind"] == "user-struct"][:1]
+    _grid_units.update({i: u["expr"] for i, u in punits})
     # build every configuration concurrently, then run them one after the other
     def prepare(c):
         compiler, std, stride, opt = c
@@ -567,11 +576,11 @@ def explore(tier, seed, rng, wd):
         tb = time.time()
         # first the trait matrix (always compiles): which (target type, context) accept ZERO under this configuration;
         # the value harness is generated from the fully accepted targets only, the others are judged from the matrix
-        rows, merr = conv_matrix(cwd, compiler, std, periods)
+        rows, merr = conv_matrix(cwd, compiler, std, periods, punits)
         at, dt = accepted_targets(rows, periods) if rows is not None else (None, None)
         cfiles = H.write_harness(cwd, units, sub, periods, nchunks=(16 if stride == 1 else 3 if stride == 0 else 8),
                                  arith_types=at, dur_targets=dt)
-        exe, err = build_harness(cwd, cfiles, compiler, std, tag, opt, san=(stride != 0))
+        exe, err = build_harness(cwd, cfiles, compiler, std, tag, opt, san=(stride != 0 or compiler == "exact"))
         return tag, sub, exe, err, round(time.time() - tb, 1), rows, merr
     built = pmap(prepare, configs, workers=len(configs))
     for ci, ((compiler, std, stride, opt), (tag, sub, exe, err, tcomp, rows, merr)) in enumerate(zip(configs, built)):
@@ -595,7 +604,7 @@ def explore(tier, seed, rng, wd):
             continue
         stats["configs"].append(f"{cfg} {opt} ({len(sub)} instances)" +
                                 (" [clang++-14, exact-count UBSan handlers]" if exact else "") +
-                                (" [light: directed units x directed values, no sanitizer]" if light else ""))
+                                (" [light: directed units x directed values" + ("" if exact else ", no sanitizer") + "]" if light else ""))
         # ---- D lines -------------------------------------------------------------------------
         dl, _ = run_block(exe, "D")
         for l in dl:
@@ -662,10 +671,19 @@ def explore(tier, seed, rng, wd):
                 meta.append(("P", ins, x))
         # pairs: ask the model first (never execute an addition the model calls UB)
         preq, pmeta = [], []
-        for ins in ([] if light else sub):
+        for ins in sub:
             rep = ins["rep"]
-            prs = int_pairs(rng, rep, npairs) if rep in INT_INFO else float_pairs(rng, rep, npairs)
-            prs = rng.sample(prs, min(len(prs), 2 * npairs + 2))
+            prs, nd = int_pairs(rng, rep, npairs) if rep in INT_INFO else float_pairs(rng, rep, npairs)
+            # the whole directed list (type limits, promoted-type overflow boundary ±1, ties, cancellation, inf - inf, NaN,
+            # signed zeros) for the directed units and a seed-rotated eighth of the others in EVERY run and configuration;
+            # for the remaining instances a rotating window of the directed list plus random pairs
+            if is_directed(units[ins["u"]]) or ins["u"] % 8 == seed % 8:
+                prs = prs[:nd] + ([] if light else rng.sample(prs[nd:], min(len(prs) - nd, npairs)))
+            elif light:
+                prs = []
+            else:
+                k0 = (ins["u"] * 5 + H.REPS.index(rep) + seed) % max(1, nd)
+                prs = [prs[(k0 + j) % nd] for j in range(min(nd, npairs + 1))] + rng.sample(prs[nd:], min(len(prs) - nd, npairs + 1))
             for a, b in prs:
                 preq.append(f"c19 pair {ins['u']} {rep} {model_val(rep, str(a))} {model_val(rep, str(b))}")
                 pmeta.append((ins, str(a), str(b)))
@@ -801,12 +819,14 @@ def check_point(ins, units, cfg, x, a, ma, violations, stats, vrec, exact=False,
             pc["negzero"] += 1
         if d[0] == "fin" and d[2] != 0 and d[2] < (1 << (FLT_INFO[rep][0] - 1)):
             pc["subnormal"] += 1
+    diffs = []
     if "qz" not in m:
+        # the oracle below is evaluated all the same
         violations.append({"what": "driver rejected a value the harness holds", "class": "corr-driver", "no_input": True,
                            "broken": "driver protocol / Val.wf", "rec": vrec(ins, cfg, x=x, model=ma)})
-        return
+        m = {"qz": r["qz"], "zq": r["zq"], "add": "", "sub": "", "zadd": "", "init": ":"}
+        extra = None
     # --- correspondence: model vs implementation, observable by observable -------------------
-    diffs = []
     if r["qz"] != m["qz"]:
         diffs.append("qz")
     if r["zq"] != m["zq"]:
@@ -904,11 +924,94 @@ def same_bits_or_nan(rep, got, x, allow_negzero_flip=False):
     return a == b
 
 
+def rne_exact(v, rep):
+    """Round the exact rational v to the float format, to nearest / ties to even: an implementation independent of the
+    Lean model (Fractions, no mantissa/exponent bookkeeping shared with it).  Returns a decoded-value tuple."""
+    p, eb, _ = FLT_INFO[rep]
+    emax = (1 << (eb - 1)) - 1
+    if v == 0:
+        return ("fin", False, 0, 0)
+    neg, a = v < 0, abs(v)
+    e = a.numerator.bit_length() - a.denominator.bit_length()          # 2^(e-1) <= a < 2^(e+1)
+    if a < Fraction(2) ** e:
+        e -= 1                                                         # now 2^e <= a < 2^(e+1)
+    q = max(e - (p - 1), 2 - emax - p)                                 # exponent of the unit in the last place
+    scaled = a / (Fraction(2) ** q)
+    n = scaled.numerator // scaled.denominator
+    rem = scaled - n
+    if rem > Fraction(1, 2) or (rem == Fraction(1, 2) and n % 2 == 1):
+        n += 1
+    if n == 0:
+        return ("fin", neg, 0, 0)
+    if Fraction(n) * Fraction(2) ** q >= Fraction(2) ** (emax + 1):
+        return ("inf", neg)
+    return fcanon(("fin", neg, n, q))
+
+
+def pair_oracle(rep, aa, bb):
+    """Exact results of a op b, a + b, a - b for two values of one rep (C++ / IEEE semantics): (cmp bits, add, sub) with add/sub
+    as decoded floats, ints (wrapped for unsigned promoted types) or None where the operation is UB (not executed)."""
+    if rep in INT_INFO:
+        a, b = int(aa), int(bb)
+        cmpb = "".join("1" if c else "0" for c in (a == b, a != b, a < b, a <= b, a > b, a >= b))
+        pr = promote(rep)
+        res = []
+        for v in (a + b, a - b):
+            if INT_INFO[pr][1]:
+                res.append(v if ilo(pr) <= v <= ihi(pr) else None)
+            else:
+                res.append(v % (1 << INT_INFO[pr][0]))
+        return cmpb, res[0], res[1]
+    da, db = fdecode(rep, aa), fdecode(rep, bb)
+    ea, eb_ = fexact(da), fexact(db)
+    if ea is None or eb_ is None:
+        return "010000", ("nan",), ("nan",)
+
+    def key(e):        # extended reals as comparable pairs
+        return (e[1], 0) if isinstance(e, tuple) else (0, e)
+    ka, kb = key(ea), key(eb_)
+    cmpb = "".join("1" if c else "0" for c in (ka == kb, ka != kb, ka < kb, ka <= kb, ka > kb, ka >= kb))
+
+    def add(x, dx, y, dy):
+        if isinstance(x, tuple) or isinstance(y, tuple):
+            if isinstance(x, tuple) and isinstance(y, tuple):
+                return ("inf", x[1] < 0) if x[1] == y[1] else ("nan",)
+            inf = x if isinstance(x, tuple) else y
+            return ("inf", inf[1] < 0)
+        if x == 0 and y == 0:
+            return ("fin", dx[1] and dy[1], 0, 0)
+        sres = x + y
+        if sres == 0:
+            return ("fin", False, 0, 0)
+        return rne_exact(sres, rep)
+    nb = (("inf", not db[1]) if db[0] == "inf" else ("fin", not db[1], db[2], db[3]))
+    enb = fexact(nb)
+    return cmpb, add(ea, da, eb_, db), add(ea, da, enb, nb)
+
+
 def check_pair(ins, units, cfg, x, a, violations, vrec):
     aa, bb, m, ma = x
     rep = ins["rep"]
     srep = promote(rep) if rep in INT_INFO else rep
     r = kv(a)
+    # independent oracle (exact arithmetic) on what the implementation computed; pairs are outside C19's quantifier, so a
+    # failure is reported as a broken tie, not as a failing input of the property
+    ocmp, oadd, osub = pair_oracle(rep, aa, bb)
+    obad = []
+    if r["cmp"] != ocmp:
+        obad.append(f"cmp {r['cmp']} vs exact {ocmp}")
+    for key, want in (("add", oadd), ("sub", osub)):
+        if r[key] == "-":
+            continue
+        got = int(r[key]) if rep in INT_INFO else fcanon(fdecode(rep, r[key]))
+        if want is None:
+            obad.append(f"{key} executed although it overflows")
+        elif (got != want) if rep in INT_INFO else not (got == fcanon(want) or (got[0] == "nan" and want[0] == "nan")):
+            obad.append(f"{key} {got} vs exact {want}")
+    if obad:
+        violations.append({"what": f"same-type friends differ from exact arithmetic ({rep}: {aa}, {bb}): {'; '.join(obad)}",
+                           "class": "oracle-pair", "no_input": True, "broken": "exact oracle on a op b, a + b, a - b (outside C19's quantifier)",
+                           "rec": vrec(ins, cfg, kind="pair", a=aa, b=bb, model=ma, impl=a)})
     diffs = []
     if r["cmp"] != m["cmp"]:
         diffs.append("cmp")
@@ -926,33 +1029,37 @@ def check_pair(ins, units, cfg, x, a, violations, vrec):
                            "rec": vrec(ins, cfg, kind="pair", a=aa, b=bb, model=ma, impl=a)})
 
 
-def conv_matrix(cwd, compiler, std, periods):
+def conv_matrix(cwd, compiler, std, periods, punits=()):
     """Compile and run the SFINAE trait matrix. Returns (rows, None) or (None, compiler output)."""
     src, exe = os.path.join(cwd, "matrix.cc"), os.path.join(cwd, "matrix")
-    H.write_matrix(src, periods)
+    H.write_matrix(src, periods, punits)
     rc, out = cxx(src, exe, compiler=compiler, std=std, opt="-O0", san=False, timeout=WALL_BACKSTOP)
     if rc != 0:
         return None, out[-3000:]
     rc, o, e = run([exe], timeout=WALL_BACKSTOP)
     rows = [l for l in o.split("\n") if l.startswith("M ")]
-    if rc != 0 or len(rows) != len(H.ARITH_TYPES) + len(H.DUR_REPS) * len(periods):
+    nmin = len(H.ARITH_TYPES) + len(H.DUR_REPS) * len(periods) + 2 * len(punits) * len(H.REPS)
+    if rc != 0 or not (nmin <= len(rows) <= nmin + len(H.OPTIONAL_ARITH)):
         return None, f"rc={rc}, {len(rows)} rows\n{e[-2000:]}"
     return rows, None
 
 
 def accepted_targets(rows, periods):
     """Targets for which every context accepts ZERO, in the generator's own spelling."""
-    ok = [all(kv(l)[c] == "1" for c in H.MATRIX_CONTEXTS) for l in rows]
-    na = len(H.ARITH_TYPES)
-    at = [t for t, k in zip(H.ARITH_TYPES, ok[:na]) if k]
+    good = lambda l: all(kv(l)[c] == "1" for c in H.MATRIX_CONTEXTS)
+    arows = {l.split()[2]: l for l in rows if l.startswith("M arith ")}
+    at = [t for t in H.ARITH_TYPES + [t for t, _ in H.OPTIONAL_ARITH] if H.tname(t) in arows and good(arows[H.tname(t)])]
+    drows = [l for l in rows if l.startswith("M dur ")]
     allt = [(r, n, d) for r in H.DUR_REPS for (n, d) in periods]
-    dt = [t for t, k in zip(allt, ok[na:]) if k]
+    dt = [t for t, l in zip(allt, drows) if good(l)]
     return at, dt
 
 
 def check_matrix(rows, drv, cfg, violations, stats):
     """Every (target type, context) must accept ZERO: the statement says so ('converts to 0 of every arithmetic type and every
     chrono duration'), and so does the model (convertZero never rejects an arithmetic or duration target)."""
+    check_point_grid([l for l in rows if l.startswith("M point ") or l.startswith("M qty ")], drv, cfg, violations, stats)
+    rows = [l for l in rows if l.startswith("M arith ") or l.startswith("M dur ")]
     req = []
     for l in rows:
         f, d = l.split(), kv(l)
@@ -980,6 +1087,54 @@ def check_matrix(rows, drv, cfg, violations, stats):
         if not ma.startswith("ok "):
             violations.append({"what": f"model rejects ZERO -> {target}", "class": "corr-matrix", "no_input": True,
                                "broken": "correspondence: convertZero", "rec": {"kind": "conv", "target": target, "model": ma}})
+
+
+GRID_SITES = ["copyInit", "directInit", "braceInit", "assign", "argument", "returnValue", "staticCast", "listAssign"]
+GRID_OPS = [("eq", "eq", "pz"), ("ne", "ne", "pz"), ("lt", "lt", "pz"), ("le", "le", "pz"), ("gt", "gt", "pz"), ("ge", "ge", "pz"),
+            ("zeq", "eq", "zp"), ("zne", "ne", "zp"), ("zlt", "lt", "zp"), ("zle", "le", "zp"), ("zgt", "gt", "zp"), ("zge", "ge", "zp"),
+            ("zsub", "sub", "zp"), ("psub", "sub", "pz"), ("padd", "add", "pz"), ("zadd", "add", "zp")]
+_grid_units = {}
+
+
+def check_point_grid(rows, drv, cfg, violations, stats):
+    """Full grid (site kind or operator) x (directed unit) x (all 11 reps), by SFINAE: ZERO must be rejected wherever a
+    QuantityPoint is required, accepted in the two Diff slots of the point's operator+, and accepted at the same places for
+    the Quantity.  Expected verdicts: the statement (oracle) and, independently, the model's gate table."""
+    if not rows:
+        return
+    req, meta = [], []
+    for l in rows:
+        f, d = l.split(), kv(l)
+        kind, ui, rp = f[1], f[2], f[3]
+        z = "0" if rp in INT_INFO else "+,0,0"
+        for sname in GRID_SITES:
+            msite = "assign" if sname == "listAssign" else sname
+            req.append(f"c19 site {msite} {'point' if kind == 'point' else 'qty'} {ui} {rp}")
+            meta.append((l, kind, ui, rp, sname, d[sname]))
+        for key, op, side in GRID_OPS:
+            o = f"{'pt' if kind == 'point' else 'qty'}:{ui}:{rp}:{z}"
+            req.append(f"c19 bin {op} {o} zero" if side == "pz" else f"c19 bin {op} zero {o}")
+            meta.append((l, kind, ui, rp, key, d[key]))
+    for (l, kind, ui, rp, key, got), ma in zip(meta, drv.ask(req)):
+        stats["grid_cells"] = stats.get("grid_cells", 0) + 1
+        unit = _grid_units.get(int(ui), ui)
+        model_accepts = ma.startswith("ok ")
+        # oracle, from the statement: a point slot never accepts ZERO; `p + ZERO` / `ZERO + p` have a quantity (Diff) slot;
+        # a quantity accepts ZERO everywhere (psub/zsub of a quantity are ordinary differences)
+        if kind == "point":
+            want = key in ("padd", "zadd")
+        else:
+            want = True
+        if (got == "1") != want:
+            what = (f"ZERO is accepted where a QuantityPoint is required ({key}, unit {unit}, rep {rp}, {cfg})" if kind == "point" and not want
+                    else f"ZERO is rejected in a quantity slot ({kind} {key}, unit {unit}, rep {rp}, {cfg})")
+            violations.append({"what": what, "class": f"oracle-grid-{kind}-{key}",
+                               "rec": {"kind": "grid", "what": kind, "site": key, "unit": unit, "rep": rp, "config": cfg, "impl": l,
+                                       "model": ma, "observable": "accepted", "expected": str(want), "actual": got}})
+        if model_accepts != (got == "1"):
+            violations.append({"what": f"model verdict '{ma}' differs from the compiler's SFINAE verdict {got} ({kind} {key}, unit {unit}, rep {rp})",
+                               "class": "corr-grid", "no_input": True, "broken": "correspondence: convertZero/binop gate table",
+                               "rec": {"kind": "grid", "what": kind, "site": key, "unit": unit, "rep": rp, "config": cfg, "impl": l, "model": ma}})
 
 
 def check_conv(al, drv, cfg, violations, stats, samples):
